@@ -379,6 +379,19 @@ def rule_surplus(ctx: Ctx) -> None:
     gfa_fn = P.func(f"{BASE}.Pipeline._get_func_args")
     used = [c for c in ast.walk(gfa_fn.node) if isinstance(c, ast.Call) and isinstance(c.func, ast.Attribute) and c.func.attr in ("add", "update") and "used_parameters" in norm(c.func.value)]
     ctx.tri("4-surplus", gfa_fn, used[0] if used else gfa_fn.node, bool(used), not used, "every resolved parameter is recorded as used", "_get_func_args no longer records the parameters it consumed: every call with keywords is rejected as having surplus ones", key="records-used")
+    # ... for EVERY parameter, whichever source its value came from (bound, supplied, upstream, default): an iteration of the resolution
+    # loop that goes on to the next parameter without recording this one makes a keyword supplied for it "unused" - a nested pipeline,
+    # which is handed all its kwargs, then raises where the flat pipeline returns a value
+    if used:
+        gcfg = ctx.cfg(gfa_fn)
+        add_nodes = {n_ for n_ in (gcfg.node_containing(u) for u in used) if n_ is not None}
+        loops = [lp for lp in gcfg.nodes(lambda s_: isinstance(s_, ast.For)) if any(a_ in gcfg.reachable_from(lp) for a_ in add_nodes) and "parameters" in norm(gcfg.stmt[lp].iter)]
+        for lp in loops[:1]:
+            body0 = gcfg.node(gcfg.stmt[lp].body[0])
+            back = lp in gcfg.reachable_from(body0, without=add_nodes, normal_only=True) if body0 not in add_nodes else False
+            ctx.add("4-surplus", gfa_fn, gcfg.stmt[sorted(add_nodes)[0]], not back, "every iteration of the resolution loop records its parameter as used" if not back else
+                    "an iteration of the resolution loop can move on to the next parameter without recording this one as used (a `continue` before the bookkeeping): a value supplied for such a parameter - a nested pipeline forwards "
+                    "all of its kwargs - is reported as an unused keyword although the flat pipeline accepts the same call", key="records-used-every-iteration")
 
 
 def rule_order_free(ctx: Ctx) -> None:
